@@ -94,7 +94,7 @@ func (g *gen) target() (string, vkind) {
 	case 0:
 		return t + "." + fieldNames[g.r.Intn(len(fieldNames))], kAny
 	case 1:
-		return fmt.Sprintf("%s[%s]", t, g.expr(kNum, 1)), kAny
+		return fmt.Sprintf("%s[%s]", t, g.smallIndex(1)), kAny
 	}
 	return fmt.Sprintf("%s[ %s ]", t, g.atom(kStr)), kAny
 }
